@@ -107,6 +107,22 @@ def g_cnf(repo):
     return g
 
 
+def g_opmatch(repo):
+    """operators.rs: match_value (one pair through a comparator closure) with its helpers success / fail"""
+    g = GroupBuild('opmatch', repo)
+    g.raw('prelude_common.rs')
+    g.raw('prelude_eval.rs')
+    eval_types(g)
+    OPS = RULES + 'eval/operators.rs'
+    for t in ('LhsRhsPair', 'QueryIn', 'ListIn', 'Compare', 'ComparisonResult', 'ValueEvalResult', 'NotComparable'):
+        g.type(OPS, t, derive=None)
+    g.raw('spec_opmatch.rs')
+    g.fn('U-matchv-ok', OPS, 'success', spec='op_success.spec', props=['C08', 'C13'])
+    g.fn('U-matchv-fail', OPS, 'fail', spec='op_fail.spec', nth=0, props=['C08', 'C13'])
+    g.fn('U-matchv', OPS, 'match_value', spec='match_value.spec', props=['C08', 'C13'])
+    return g
+
+
 def g_eval_blocks(repo):
     """query blocks and type blocks: need the assumed ValueScope model (R12)"""
     g = GroupBuild('eval_blocks', repo)
@@ -182,7 +198,7 @@ def g_compare(repo):
     g.fn('U-cmpv', PV, 'compare_values', spec='compare_values.spec', props=['C13'])
     for op in ('lt', 'le', 'gt', 'ge'):
         g.fn('U-' + op, PV, 'compare_' + op, spec='compare_%s.spec' % op, props=['C13'])
-    g.fn('U-peq-v', PV, 'eq', impl=r'impl PartialEq for PathAwareValue', spec='pav_eq.spec', wrap_impl='impl PathAwareValue', props=['C13'])
+    g.fn('U-peq-v', PV, 'eq', impl=r'impl PartialEq for PathAwareValue', spec='pav_eq.spec', wrap_impl='impl PathAwareValue', props=['C08', 'C13'])
     g.unit_meta['L-cmp'] = dict(function='lemma_cmp_algebra', file='/verif/verus/prelude_cmp.rs',
                                 clauses=dict(requires=0, ensures=9, invariant=0, decreases=0), props=['C13'], spec=None, lemma=True)
     return g
@@ -226,6 +242,14 @@ def g_memo(repo, block=False):
     g.fn(None, EC, 'root', impl=IMPL, stub=True, wrap_impl=W)
     g.fn('U-memo-var', EC, 'resolve_variable', impl=IMPL, spec='root_resolve_variable.spec', wrap_impl=W, props=['C01', 'C04'])
     g.fn('U-memo-rule', EC, 'rule_status', impl=IMPL, spec='root_rule_status.spec', wrap_impl=W, props=['C01', 'C04'])
+    # frame condition: record bookkeeping on the root scope never writes the memo tables
+    TR = r"RecordTracer<'value> for RecordTracker<'value>"
+    TW = "impl<'value> RecordTracker<'value>"
+    g.fn(None, EC, 'start_record', impl=TR, stub=True, wrap_impl=TW)
+    g.fn(None, EC, 'end_record', impl=TR, stub=True, wrap_impl=TW)
+    RT = r"RecordTracer<'value> for RootScope<'value, 'loc>"
+    g.fn('U-root-frame-s', EC, 'start_record', impl=RT, spec='root_frame.spec', wrap_impl=W, props=['C04'])
+    g.fn('U-root-frame-e', EC, 'end_record', impl=RT, spec='root_frame.spec', wrap_impl=W, props=['C04'])
     g.unit_meta['L-memo'] = dict(function='lemma_fns_prefix, lemma_fns_at', file='/verif/verus/prelude_memo.rs',
                                  clauses=dict(requires=2, ensures=4, invariant=0, decreases=1), props=['C01', 'C04'], spec=None, lemma=True)
     return g
@@ -442,4 +466,4 @@ def g_tables(repo):
     return g
 
 
-GROUPS = {'cnf': g_cnf, 'failed': g_failed, 'structured': g_structured, 'validate_data': g_validate_data, 'memo': g_memo, 'memo_block': g_memo_block, 'compare': g_compare, 'tables': g_tables, 'index2': g_index2, 'index': g_index, 'tracker': g_tracker, 'validate': g_validate, 'eval_blocks': g_eval_blocks, 'report': g_report, 'merge': g_merge, 'status': g_status, 'exit': g_exit, 'eval': g_eval, 'eval_disp': g_eval_disp}
+GROUPS = {'opmatch': g_opmatch, 'cnf': g_cnf, 'failed': g_failed, 'structured': g_structured, 'validate_data': g_validate_data, 'memo': g_memo, 'memo_block': g_memo_block, 'compare': g_compare, 'tables': g_tables, 'index2': g_index2, 'index': g_index, 'tracker': g_tracker, 'validate': g_validate, 'eval_blocks': g_eval_blocks, 'report': g_report, 'merge': g_merge, 'status': g_status, 'exit': g_exit, 'eval': g_eval, 'eval_disp': g_eval_disp}
